@@ -117,6 +117,7 @@ type c22Op struct {
 	A   int    // selection index, resolved modulo what is applicable
 	Bad bool   `json:",omitempty"` // connect: plug and slot of different interfaces (organic failure)
 	Und bool   `json:",omitempty"` // connect: prefer a remembered undesired connection
+	Con bool   `json:",omitempty"` // remove: prefer a snap that has connections
 }
 
 type c22Case struct {
@@ -1142,12 +1143,19 @@ func (r *c22Run) planFor(opIdx int, op c22Op) *c22Plan {
 	case "remove":
 		var cands []string
 		st.Lock()
+		var connected []string
 		for _, n := range c22Snaps {
 			if r.installed(n) {
 				cands = append(cands, n)
+				if refs, err := r.repo().Connections(n); err == nil && len(refs) > 0 {
+					connected = append(connected, n)
+				}
 			}
 		}
 		st.Unlock()
+		if op.Con && len(connected) > 0 {
+			cands = connected
+		}
 		if len(cands) == 0 {
 			return nil
 		}
@@ -1318,11 +1326,14 @@ func c22RunCase(c c22Case) (o verifkit.Outcome, err error) {
 
 func c22Gen(t *rapid.T) c22Case {
 	c := c22Case{}
-	template := rapid.IntRange(0, 9).Draw(t, "template") < 3
+	template := rapid.IntRange(0, 9).Draw(t, "template")
 	for i := range c22Snaps {
-		if template {
+		switch {
+		case template < 3:
 			c.Installed = append(c.Installed, i == 0 || i == 2)
-		} else {
+		case template < 5:
+			c.Installed = append(c.Installed, true)
+		default:
 			c.Installed = append(c.Installed, rapid.IntRange(0, 9).Draw(t, "installed") < 6)
 		}
 	}
@@ -1340,33 +1351,45 @@ func c22Gen(t *rapid.T) c22Case {
 		c.HookMask = append(c.HookMask, m)
 	}
 	c.Dyn = rapid.Bool().Draw(t, "dyn")
-	if template {
+	maybeRestart := func() {
+		if rapid.Bool().Draw(t, "restartBetween") {
+			c.Ops = append(c.Ops, c22Op{K: "restart"})
+		}
+	}
+	switch {
+	case template < 3:
 		// auto-connect on install, manual disconnect (=> undesired), connect again
 		c.Ops = append(c.Ops,
 			c22Op{K: "install", A: rapid.IntRange(0, 1).Draw(t, "a")},
 			c22Op{K: "disconnect", A: rapid.IntRange(0, 3).Draw(t, "a")})
-		if rapid.Bool().Draw(t, "restartBetween") {
-			c.Ops = append(c.Ops, c22Op{K: "restart"})
-		}
+		maybeRestart()
 		c.Ops = append(c.Ops, c22Op{K: "connect", A: rapid.IntRange(0, 5).Draw(t, "a"), Und: true})
+	case template < 5:
+		// manual connections, then removal of a connected snap (auto-disconnect)
+		for i, n := 0, rapid.IntRange(1, 3).Draw(t, "nconnect"); i < n; i++ {
+			c.Ops = append(c.Ops, c22Op{K: "connect", A: rapid.IntRange(0, 5).Draw(t, "a")})
+		}
+		maybeRestart()
+		c.Ops = append(c.Ops, c22Op{K: "remove", A: rapid.IntRange(0, 3).Draw(t, "a"), Con: true})
 	}
 	n := rapid.IntRange(2, verifkit.Size(5, 7)).Draw(t, "nops")
 	for len(c.Ops) < n+1 {
 		w := rapid.IntRange(0, 99).Draw(t, "kind")
 		op := c22Op{A: rapid.IntRange(0, 11).Draw(t, "a")}
 		switch {
-		case w < 30:
+		case w < 28:
 			op.K = "connect"
 			op.Und = rapid.Bool().Draw(t, "und")
 			op.Bad = rapid.IntRange(0, 19).Draw(t, "bad") == 0
-		case w < 48:
+		case w < 44:
 			op.K = "disconnect"
-		case w < 58:
+		case w < 52:
 			op.K = "forget"
-		case w < 75:
+		case w < 68:
 			op.K = "install"
-		case w < 88:
+		case w < 82:
 			op.K = "remove"
+			op.Con = rapid.Bool().Draw(t, "con")
 		default:
 			op.K = "restart"
 			op.A = 0
@@ -1382,12 +1405,14 @@ func TestVerifC22(t *testing.T) {
 		Gen: c22Gen,
 		Run: c22RunCase,
 		Floors: map[string]float64{
-			"fail-at-or-after-connect":      0.25,
-			"fail-at-or-after-disconnect":   0.15,
-			"fail-at-or-after-auto-connect": 0.10,
-			"undesired-reconnect":           0.10,
-			"restart-with-connections":      0.10,
-			"fault-setup":                   0.30,
+			"fail-at-or-after-connect":         0.25,
+			"fail-at-or-after-auto-connect":    0.10,
+			"fail-at-or-after-auto-disconnect": 0.08,
+			"undesired-reconnect":              0.10,
+			"restart-with-connections":         0.10,
+			"restart-with-undesired":           0.05,
+			"fault-setup":                      0.30,
+			"fault-hook":                       0.15,
 		},
 		NonTrivialFloor: 0.4,
 	})
